@@ -380,7 +380,39 @@ class SubIfcArr(Component):
       s.send[i] //= s.b.send[i]
 
 
+@bitstruct
+class InnerY:
+  y: Bits4
+  z: Bits2
+
+
+@bitstruct
+class PWrap:
+  inner: InnerY
+  k: Bits3
+
+
+class StageP(Component):
+  def construct(s):
+    s.in_ = InPort(8); s.p = OutPort(PWrap)
+    @update
+    def up_sp(): s.p @= PWrap(InnerY(s.in_[0:4], s.in_[4:6]), s.in_[5:8])
+
+
+class DeepStructArr(Component):
+  """a list of children with a struct-typed port; the parent connects fields two levels deep of individual elements"""
+  def construct(s):
+    s.ins = [InPort(8) for _ in range(3)]; s.y = OutPort(4); s.z = OutPort(2); s.k = OutPort(3); s.whole = OutPort(InnerY)
+    s.stage = [StageP() for _ in range(3)]
+    for i in range(3): s.stage[i].in_ //= s.ins[i]
+    s.y //= s.stage[1].p.inner.y
+    s.z //= s.stage[2].p.inner.z
+    s.k //= s.stage[0].p.k
+    s.whole //= s.stage[2].p.inner
+
+
 DESIGNS = {
+  'x:DeepStructArr': DeepStructArr,
   'x:SubIfcArr': SubIfcArr,
   'x:StructInstBehav': StructInstBehav, 'x:IfcNested': IfcNested, 'x:SubcompBehav': SubcompBehav, 'x:ElifChain': ElifChain,
   'x:VarIdx2D': VarIdx2D, 'x:NestedLoops': NestedLoops,
